@@ -556,7 +556,12 @@ func streamCb(o opts) {
 		}
 		ctx := fmt.Sprintf("callback scenario %d policy %d", kind, pol)
 		kioshun.VerifSetClock(true, 1000)
-		c, err := kioshun.New[int, int](kioshun.Config{MaxSize: 8, ShardCount: 1, EvictionPolicy: pol})
+		// a configured janitor (it never ticks within a scenario) must not change which callbacks run
+		janitor := time.Duration(0)
+		if (round/20)%2 == 1 {
+			janitor = time.Hour
+		}
+		c, err := kioshun.New[int, int](kioshun.Config{MaxSize: 8, ShardCount: 1, EvictionPolicy: pol, CleanupInterval: janitor})
 		must(err)
 		w.T(sidCb, ints(0, 1000))
 		ch := make(chan [2]int, 64)
